@@ -17,7 +17,7 @@ FUNCTIONS = [
     "pyoak.tree:Tree.__init__", "pyoak.tree:Tree.get_xpath", "pyoak.tree:Tree.get_parent", "pyoak.tree:Tree.get_parent_info", "pyoak.tree:Tree.is_root",
     "pyoak.tree:Tree.is_in_tree", "pyoak.tree:Tree.get_depth", "pyoak.tree:Tree.get_ancestors", "pyoak.tree:Tree.get_first_ancestor_of_type", "pyoak.tree:Tree.is_ancestor",
 ]
-ANC_CLASSES = [("VBase",), ("VMany",), ("VReq", "VMixed"), ("VMixed",), ("VLeaf",), ("VMixed", "VReq", "VMany"), ("VMany", "VMixed", "VReq")]  # the last two: the same classes in two orders (the nearest matching ancestor wins, not the first class)
+ANC_CLASSES = [("VBase",), ("VMany",), ("VReq", "VMixed"), ("VMixed",), ("VLeaf",), ("VMixed", "VReq", "VMany"), ("VMany", "VMixed", "VReq"), ("VMixed", "VInh")]  # a class listed next to its subclass (last); before it: the same classes in two orders (the nearest matching ancestor wins, not the first class)
 
 
 def _twinify(recipe: Any) -> Any:
